@@ -524,6 +524,128 @@ fn run_flow(ws: &[&str]) -> String {
     }
 }
 
+#[derive(Debug)]
+struct AdErr(String);
+impl std::fmt::Display for AdErr {
+    fn fmt(&self, f: &mut std::fmt::Formatter<'_>) -> std::fmt::Result {
+        write!(f, "adapter error")
+    }
+}
+impl std::error::Error for AdErr {}
+
+/// `NETSAME adapter kind status ct body pad`: one library call of the given kind made twice - through
+/// the bundled adapter against the scripted server, and through an in-memory client handing the
+/// library the very same reply - must give the same outcome (theorem C09_classified_identically).
+/// `pad` blanks are appended to the body on both sides (large replies).  kinds: code, refresh,
+/// introspect, devauth, revoke, devpoll (a device-flow poll session against a server that gives
+/// this reply every time, under a clock that runs past the deadline after a few readings).
+fn run_same(ws: &[&str]) -> String {
+    use oauth2::basic::BasicClient;
+    use oauth2::*;
+    if ws.len() != 6 {
+        return BAD.into();
+    }
+    let adapter = ws[0].to_string();
+    let kind = ws[1].to_string();
+    let status: u16 = match ws[2].parse() { Ok(s) => s, Err(_) => return BAD.into() };
+    let ct = match untok_opt_bytes(ws[3]) { Some(c) => c, None => return BAD.into() };
+    let mut body = match untok_bytes(ws[4]) { Some(b) => b, None => return BAD.into() };
+    let pad: usize = match ws[5].parse() { Ok(p) => p, Err(_) => return BAD.into() };
+    body.extend(std::iter::repeat(b' ').take(pad));
+    let reply = Reply { status, ct: ct.clone(), framing: if pad % 2 == 0 { "cl".into() } else { "chunked".into() }, body: body.clone(), fault: "none".into(), flags: vec![], nested: None };
+    let listener = TcpListener::bind("127.0.0.1:0").unwrap();
+    let port = listener.local_addr().unwrap().port();
+    let (done_tx, done_rx) = mpsc::channel();
+    let server = std::thread::spawn(move || serve(listener, reply, port, done_rx));
+    let out = with_watchdog(move || {
+        let base = format!("http://127.0.0.1:{}", port);
+        let client = BasicClient::new(ClientId::new("aaa".to_string()))
+            .set_client_secret(ClientSecret::new("bbb".to_string()))
+            .set_token_uri(TokenUrl::new(format!("{}/token", base)).unwrap())
+            .set_introspection_url(IntrospectionUrl::new(format!("{}/introspect", base)).unwrap())
+            .set_device_authorization_url(DeviceAuthorizationUrl::new(format!("{}/device", base)).unwrap())
+            // (revocation is https-only: the request is prepared for an https URL and redirected to the scripted server by the client below)
+            .set_revocation_url(RevocationUrl::new("https://127.0.0.1/revoke".to_string()).unwrap());
+        let via_adapter = |mut r: HttpRequest| -> Result<HttpResponse, AdErr> {
+            if r.uri().scheme_str() == Some("https") {
+                *r.uri_mut() = format!("{}/revoke", base).parse().unwrap();
+            }
+            call_adapter(&adapter, r).map_err(AdErr)
+        };
+        let in_memory = |_r: HttpRequest| -> Result<HttpResponse, AdErr> {
+            let mut b = http::Response::builder().status(status);
+            if let Some(ct) = &ct {
+                for one in ct.split(|c| *c == b'\n') {
+                    b = b.header(http::header::CONTENT_TYPE, http::HeaderValue::from_bytes(one).map_err(|_| AdErr("ct".into()))?);
+                }
+            }
+            b.body(body.clone()).map_err(|_| AdErr("build".into()))
+        };
+        macro_rules! show {
+            ($r:expr, $ok:expr) => {
+                match $r {
+                    Ok(v) => format!("ok {}", $ok(&v)),
+                    Err(RequestTokenError::ServerResponse(e)) => format!("server {} {}", tok_bytes(serde_json::to_string(&e).unwrap().as_bytes()), tok_bytes(e.to_string().as_bytes())),
+                    Err(RequestTokenError::Parse(_, b)) => format!("parse len={} head={}", b.len(), tok_bytes(&b[..b.len().min(64)])),
+                    Err(RequestTokenError::Other(s)) => format!("other {}", tok_bytes(s.as_bytes())),
+                    Err(RequestTokenError::Request(_)) => "request".to_string(),
+                }
+            };
+        }
+        let details: StandardDeviceAuthorizationResponse =
+            serde_json::from_str(r#"{"device_code":"dc","user_code":"uc","verification_uri":"https://v/","expires_in":30,"interval":0}"#).unwrap();
+        let go = |which: u8| -> String {
+            macro_rules! with {
+                ($c:expr) => {
+                    match kind.as_str() {
+                        "code" => show!(client.exchange_code(AuthorizationCode::new("c".to_string())).request($c), |v: &oauth2::basic::BasicTokenResponse| tok_bytes(serde_json::to_string(v).unwrap().as_bytes())),
+                        "refresh" => show!(client.exchange_refresh_token(&RefreshToken::new("r".to_string())).request($c), |v: &oauth2::basic::BasicTokenResponse| tok_bytes(serde_json::to_string(v).unwrap().as_bytes())),
+                        "introspect" => show!(client.introspect(&AccessToken::new("t".to_string())).request($c), |v: &oauth2::basic::BasicTokenIntrospectionResponse| tok_bytes(serde_json::to_string(v).unwrap().as_bytes())),
+                        "devauth" => {
+                            let r: Result<StandardDeviceAuthorizationResponse, _> = client.exchange_device_code().request($c);
+                            show!(r, |v: &StandardDeviceAuthorizationResponse| tok_bytes(serde_json::to_string(v).unwrap().as_bytes()))
+                        }
+                        "revoke" => show!(client.revoke_token(StandardRevocableToken::AccessToken(AccessToken::new("t".to_string()))).unwrap().request($c), |_v: &()| "revoked".to_string()),
+                        "devpoll" => {
+                            let n = std::sync::atomic::AtomicI64::new(0);
+                            let polls = std::cell::Cell::new(0u32);
+                            let clock = || {
+                                let k = n.fetch_add(1, std::sync::atomic::Ordering::SeqCst) + 1;
+                                chrono::DateTime::<chrono::Utc>::from_timestamp(1_700_000_000 + 8 * k, 0).unwrap()
+                            };
+                            let counted = |r: HttpRequest| {
+                                polls.set(polls.get() + 1);
+                                $c(r)
+                            };
+                            let r = client.exchange_device_access_token(&details).set_time_fn(clock).request(&counted, |_d| {}, None);
+                            format!("{} polls={}", show!(r, |v: &oauth2::basic::BasicTokenResponse| tok_bytes(serde_json::to_string(v).unwrap().as_bytes())), polls.get())
+                        }
+                        _ => BAD.to_string(),
+                    }
+                };
+            }
+            if which == 0 {
+                with!(&via_adapter)
+            } else {
+                with!(&in_memory)
+            }
+        };
+        let a = go(0);
+        let m = go(1);
+        if a == m {
+            format!("same {}", a.split(' ').next().unwrap_or(""))
+        } else {
+            format!("differ adapter=[{}] memory=[{}]", a, m)
+        }
+    });
+    let _ = done_tx.send(());
+    let _ = server.join();
+    match out {
+        Ok(s) => s,
+        Err(why) => why.to_string(),
+    }
+}
+
 fn pseudo_bytes(n: usize, seed: u64) -> Vec<u8> {
     let mut x = seed | 1;
     let mut v = Vec::with_capacity(n);
@@ -582,6 +704,7 @@ fn run_line(line: &str) -> String {
         Some(&"NETBIG") => run_big(&ws[1..]),
         Some(&"NET") => run_net(&ws[1..]),
         Some(&"NETFLOW") => run_flow(&ws[1..]),
+        Some(&"NETSAME") => run_same(&ws[1..]),
         _ => BAD.into(),
     }
 }
